@@ -51,6 +51,15 @@ func Run(ctx *vrun.Ctx) error {
 			return err
 		}
 	}
-	ctx.Ev.Coverage.Rule = "TLC enumerates every case / behaviour of the three specifications; each is concretised and replayed into btcec"
+	ctx.Ev.Coverage.Rule = "SigParse.tla and SigVerify.tla: every case TLC enumerates (parser x encoding shape x value classes; scheme x signer x mutation x key/message/nonce class x parity x encoding route) is concretised to bytes and sent through the real btcec entry point, the verdict must equal the one TLC wrote into `expect` (distinct = distinct case tuples without the draw index). " +
+		"SigVerify's rule table is checked by TLC against the signing/verification equations over toy groups Z_q. Musig2.tla: BIP327 over a toy group with the Context/Session discipline, invariants checked exhaustively on the listed configurations; simulated behaviours are replayed into musig2 with real keys of the same shape and every call result compared with the specification's `last` (distinct = distinct shape + call sequence); " +
+		"aggregate keys, accumulators, nonces, partial and final signatures are also compared with an independent math/big BIP327/BIP340 implementation pinned to the published vectors"
+	ctx.Ev.Coverage.Exhaustive = false
+	ctx.Ev.Coverage.Explanation = "the case spaces of SigParse/SigVerify and the toy-group configurations of Musig2 are enumerated completely by TLC, but the property quantifies over all 256-bit keys, messages, nonces and byte strings: numbers are boundary classes plus seeded random draws, field and scalar arithmetic of the library is only sampled against the reference, MuSig2 behaviours are a seeded random sample of the model (signer multisets up to 3, tweak chains up to 2)"
+	ctx.Assume("the math/big reference (affine secp256k1, ECDSA, BIP340, BIP327) is correct; it is pinned to 44 published BIP340/BIP327 vectors on every run and a disagreement between it and the specification is an infrastructure failure, not a verdict")
+	ctx.Assume("hash functions act as random oracles: toy behaviours that need a chosen hash output (aggregate key at infinity, R1 + b*R2 = infinity with R2 finite, a taproot tweak hitting infinity) are not realised on the real curve")
+	ctx.Assume("a session is given other signers' partial signatures only after its own Sign (the documented Session flow); every public nonce is registered at most once")
+	ctx.Assume("decred secp256k1 v4.4.0 (module cache) is part of the library under test: ECDSA Sign/Verify/compact signatures, ParsePubKey, GenerateSharedSecret, field and scalar arithmetic")
+	ctx.Assume("messages are 32-byte hashes; an ECDSA r = x mod n with x >= n is not constructed (probability 2^-128)")
 	return nil
 }
